@@ -387,6 +387,13 @@ func (fe *FnExec) applyContract(fr *frame, st *State, in ssa.Instruction, site s
 		}
 	}
 	fe.reestablishArgs(st, full, fe.curArgTypes)
+	for _, w := range con.Wraps {
+		if rv, ok := post.binds[w[0]]; ok {
+			if av, ok := post.binds[w[1]]; ok {
+				fe.wraps[termOf(rv)] = av
+			}
+		}
+	}
 	for _, name := range con.GhostInit {
 		if v, ok := post.binds[name]; ok {
 			var rtt types.Type
